@@ -1,5 +1,6 @@
 import CasbinV.Proto
 import CasbinV.Driver.Effect
+import CasbinV.Driver.Policy
 /-! Line-protocol driver: `driver <family>`; exactly one answer line per input line.
     Lines starting with `#` are echoed; `#reset` also resets a stateful family to its initial state.
     Unknown or malformed lines answer `bad-op` (never defaulted). -/
@@ -13,7 +14,8 @@ structure Family where
 def stateless (f : List String → String) : Family := { σ := Unit, init := (), step := fun _ fs => ((), f fs) }
 
 def families : List (String × Family) := [
-  ("effect", stateless Casbin.Driver.Effect.handle)
+  ("effect", stateless Casbin.Driver.Effect.handle),
+  ("policy", { σ := Casbin.Driver.Policy.St, init := {}, step := Casbin.Driver.Policy.step })
 ]
 
 partial def runFamily (h out : IO.FS.Stream) (fam : Family) (s : fam.σ) : IO Unit := do
